@@ -89,7 +89,7 @@ func (s *Translator) buildOptionalMatchAggregationStep(aggregationFrame *Frame) 
 	// join to the origin frame (prior to the OPTIONAL MATCH) based on the OPTIONAL MATCH's frame.
 	var (
 		optMatchFrame = aggregationFrame.Previous
-		originFrame   = optMatchFrame.Previous
+		originFrame   = s.previousFrameSource(optMatchFrame)
 	)
 
 	// originFrame could be nil if no previous frame is defined (for ex., leading OPTIONAL MATCH, which is
